@@ -7,6 +7,10 @@ import (
 	"github.com/pion/rtp"
 )
 
+const (
+	maxUnitSize = 1 * 1024 * 1024
+)
+
 // ErrMorePacketsNeeded is returned when more packets are needed to complete a KLV unit.
 var ErrMorePacketsNeeded = errors.New("need more packets")
 
@@ -135,6 +139,13 @@ func (d *Decoder) Decode(pkt *rtp.Packet) ([]byte, error) {
 			// The previous unit was incomplete
 			d.reset()
 			return nil, fmt.Errorf("incomplete KLV unit: timestamp changed from %d to %d", d.currentTimestamp, timestamp)
+		}
+
+		if (len(d.buffer) + len(payload)) > maxUnitSize {
+			errSize := len(d.buffer) + len(payload)
+			d.reset()
+			return nil, fmt.Errorf("KLV unit size (%d) is too big, maximum is %d",
+				errSize, maxUnitSize)
 		}
 
 		// Append this packet's payload to the buffer
